@@ -21,6 +21,17 @@ def walk(ck, name, cfg, episodes, coq_in):
     if not scheduled:
         cfg = copy.deepcopy(cfg)
         mx = cfg["game"]["max_episode_length"] = rng.choice([5, 8, 13, 21])
+        # scripted agents that start at once / early (the shipped ones start after most of these short episodes are over)
+        if rng.random() < 0.5:
+            for a in cfg.get("agents", []):
+                st = a.get("agent_settings") or {}
+                if "start_step" in st:
+                    st["start_step"] = rng.choice([0, 0, 1, 2])
+                    if isinstance(st.get("frequency"), int) and st["frequency"] > 1:
+                        st["frequency"] = rng.choice([2, 3])
+                        st["variance"] = rng.choice([0, 1])
+                    if "start_variance" in st:
+                        st["start_variance"] = rng.choice([0, 1])
     ctx = {"scenario": name, "ops": []}
     try:
         if scheduled:
